@@ -38,6 +38,8 @@ VerdictX(p, e, s) ==
                    h160 == Hash160(e.env, ser)
                    ck == IF h160 = Missing THEN Missing ELSE EnvGet(e.env, "sha256d", <<net.pkh>> \o h160)
                IN IF h160 = Missing \/ ck = Missing THEN EnvMissingV("pubkey-format")
+                  \* SetFormat(x) makes x the format (Format() reports it and every rendering follows it)
+                  ELSE IF "want" \in DOMAIN f /\ f.fmt # f.want THEN V("pubkey-format-not-set", f.want, f.fmt)
                   ELSE IF f.ser # ser THEN V("pubkey-serialisation", Cut(ser), Cut(f.ser))
                   ELSE IF f.str # HexStr(ser) THEN V("pubkey-string", Cut(HexStr(ser)), Cut(f.str))
                   ELSE IF f.enc # CheckEnc(e.env, net.pkh, h160) THEN V("pubkey-p2pkh-string", Cut(CheckEnc(e.env, net.pkh, h160)), Cut(f.enc))
